@@ -147,7 +147,7 @@ func (e *c02Env) trace(w *vWriter, in c02TraceIn) {
 	tags = append(tags, "result="+res)
 	c := VCase{Input: in, Key: key, Tags: tags,
 		Nontrivial: res != "LinStrongNeeded" && res != "LinOk",
-		Coq:        fmt.Sprintf("{| c_obs := %s; c_result := %s; c_verified := %s |}", coq, res, coqBool(verified))}
+		Coq:        fmt.Sprintf("CTrace {| c_obs := %s; c_result := %s; c_verified := %s |}", coq, res, coqBool(verified))}
 	// property-level statements that need no model: a node that is not leader, or is asked about a term
 	// that is over, or has not had a strong read in this term, never passes
 	if err == nil && (!pre.Leader || readTerm != term || pre.Srt != readTerm) {
@@ -213,7 +213,7 @@ func (e *c02Env) lag(w *vWriter, in c02TraceIn) {
 		coq, verified, _ := vcLinAfter(s, pre, err)
 		res := c02Result(err)
 		c := VCase{Input: in, Key: key + "/" + tag, Tags: append([]string{"result=" + res, "lag=" + tag}, tags...), Nontrivial: pre.Commit > pre.FsmIdx,
-			Coq: fmt.Sprintf("{| c_obs := %s; c_result := %s; c_verified := %s |}", coq, res, coqBool(verified))}
+			Coq: fmt.Sprintf("CTrace {| c_obs := %s; c_result := %s; c_verified := %s |}", coq, res, coqBool(verified))}
 		if !(pre.Commit > pre.FsmIdx) {
 			c.Inconcl = "the FSM was not lagging when the read started"
 			c.Coq = ""
@@ -569,6 +569,20 @@ func TestVerif_C02(t *testing.T) {
 			var in c02TraceIn
 			json.Unmarshal(raw, &in)
 			env.lag(w, in)
+		case "first":
+			var in c02FirstIn
+			json.Unmarshal(raw, &in)
+			if in.Situation == "after-cut-off" {
+				g := c02NewGated(t)
+				if g == nil {
+					w.Emit(VCase{Input: in, Key: vJSON(in), Inconcl: "gated cluster did not start"})
+					return
+				}
+				defer g.c.close()
+				c02First(w, in, g.c, g)
+			} else {
+				c02First(w, in, env.c, nil)
+			}
 		default:
 			var in c02TraceIn
 			json.Unmarshal(raw, &in)
@@ -585,6 +599,25 @@ func TestVerif_C02(t *testing.T) {
 		if ld := env.c.leader(10 * time.Second); ld != nil {
 			ld.s.Stepdown(true, "")
 		}
+	}
+	// the first linearizable reads of a term, alone and in groups, with the strong read held up
+	for r := 0; r < vN(1, 4); r++ {
+		for _, in := range c02FirstInputs(r, vTier() == "thorough") {
+			c02First(w, in, env.c, nil)
+		}
+	}
+	if g := c02NewGated(t); g != nil {
+		for r := 0; r < vN(1, 6); r++ {
+			for _, k := range []int{2, 3, 1} {
+				if k == 1 && vTier() != "thorough" {
+					continue
+				}
+				c02First(w, c02FirstIn{Kind: "first", Situation: "after-cut-off", K: k, Hold: "commit-lag", Round: r}, g.c, g)
+			}
+		}
+		g.c.close()
+	} else {
+		w.Emit(VCase{Input: c02FirstIn{Kind: "first", Situation: "after-cut-off"}, Key: "gated-cluster", Inconcl: "gated cluster did not start"})
 	}
 	seed := vSeed()
 	nw := vN(2, 60)
